@@ -32,7 +32,8 @@ def make_record(kind):
     rec = WARCRecord()
     rec.set_common_fields('resource', 'application/octet-stream')
     rec.fields['WARC-Target-URI'] = 'urn:verif:' + kind
-    data = b'small block\r\n' if kind == 'small' else pseudo_random(20000)
+    data = {'small': b'small block\r\n', 'medium': pseudo_random(9000, 3),
+            'huge': pseudo_random(70000, 5)}.get(kind) or pseudo_random(20000)
     rec.block_file = io.BytesIO(data)
     rec.compute_checksum()
     return rec
@@ -173,10 +174,11 @@ def check_crash_state(files, before_len, compress):
 
 def jobs(tier, seed):
     js = []
-    prevs = (1, 2) if tier == 'quick' else (1, 2, 4)
+    prevs = (1, 2) if tier == 'quick' else (1, 2, 4, 8)
+    kinds = ('small', 'large') if tier == 'quick' else ('small', 'medium', 'large', 'huge')
     for compress in (False, True):
         for nprev in prevs:
-            for kind in ('small', 'large'):
+            for kind in kinds:
                 js.append(dict(compress=compress, nprev=nprev, kind=kind,
                                scenario='append', tier=tier))
         js.append(dict(compress=compress, nprev=0, kind='warcinfo',
@@ -283,7 +285,7 @@ def run_job(job, cap=5):
             torn_list = [None]
             if i < len(ops) and ops[i]['op'] == 'write':
                 n = len(ops[i]['data'])
-                pts = faultfs.torn_points(n) if job['tier'] != 'quick' else \
+                pts = thorough_torn(n) if job['tier'] != 'quick' else \
                     sorted({0, 1, n // 2, n - 1, n} if n > 12 else set(range(n + 1)))
                 torn_list = [None] + [t for t in pts if 0 < t < n]
             for torn in torn_list:
@@ -306,6 +308,15 @@ def run_job(job, cap=5):
         if template:
             warcharn.cleanup(template)
     return res
+
+
+def thorough_torn(n):
+    """every prefix for short writes; for long ones every 512-byte boundary plus the
+    neighbourhood of both ends"""
+    if n <= 600:
+        return list(range(0, n + 1))
+    pts = set(range(0, 40)) | set(range(n - 40, n + 1)) | set(range(0, n, 512))
+    return sorted(pts)
 
 
 def first_diff(a, b):
@@ -333,8 +344,10 @@ def describe(tier):
              'followed by OSError for writes); for every i and every torn prefix of a write: '
              'the directory rebuilt from the log prefix is checked.  distinct = distinct '
              '(scenario, fault kind, operation index, torn length) fault points',
-        bounds=dict(prev_records='1,2' if tier == 'quick' else '1,2,4',
-                    torn='all prefixes <=48 B else {0,1,mid,n-1,n}'),
+        bounds=dict(prev_records='1,2' if tier == 'quick' else '1,2,4,8',
+                    record_sizes='13 B, 20 KB' if tier == 'quick' else '13 B, 9 KB, 20 KB, 70 KB',
+                    torn='quick: {0,1,mid,n-1,n}; thorough: every prefix <=600 B, else every '
+                         '512-byte boundary and 40 bytes at both ends'),
         assumptions=['process-kill model: bytes handed to write(2) survive, user-space '
                      'buffers (BufferedWriter, GzipFile) do not; no power-loss reordering',
                      '_pyio has the same buffering rules as the C io module',
